@@ -59,7 +59,7 @@ var AssembleOutputRegex = regexp.MustCompile(`^\s*##!=>\s*(.*)$`)
 var RuleRxRegex = regexp.MustCompile(`(.*?"!?@rx )(.*)(" \\.*)$`)
 
 // SecRuleRegex matches any SecRule line.
-var SecRuleRegex = regexp.MustCompile(`\s*SecRule`)
+var SecRuleRegex = regexp.MustCompile(`^\s*SecRule`)
 
 // RuleIdFileNameRegex matches the rule ID in a regex-assembly file name (<id>-<chain>.ra).
 // The rule ID is captured in group 1, the optional chain offset in group2,
